@@ -302,7 +302,10 @@ impl Directive {
                     if let Operand::S(include) = &values[0] {
                         let path = PathBuf::from(include);
                         let path = if path.is_relative() {
-                            let mut current_path = current_path.parent().unwrap().to_path_buf();
+                            let mut current_path = current_path
+                                .parent()
+                                .map(|x| x.to_path_buf())
+                                .unwrap_or_default();
                             current_path.push(path);
                             current_path
                         } else {
